@@ -186,6 +186,15 @@ fn check_dataset(d: &[AQuad], st: &mut Stats, out: &mut Vec<Violation>) {
                 neighbours.push(("atom-replaced".into(), c));
             }
         }
+        // statement moved between the default graph and a named graph
+        let mut c = d.to_vec();
+        c[i].1 = if q.1.is_some() { None } else { Some(ex("x")) };
+        neighbours.push(("moved-between-default-and-named-graph".into(), c));
+        if q.1.is_none() {
+            let mut c = d.to_vec();
+            c[i].1 = Some(ATerm::b("newgraph"));
+            neighbours.push(("moved-to-blank-named-graph".into(), c));
+        }
         // statement removed
         let mut c = d.to_vec();
         c.remove(i);
@@ -292,7 +301,7 @@ pub fn run(tier: Tier) -> Report {
     }
     rep.stats.sample(json!({"quads": quads_nq(&datasets[datasets.len() / 2])}));
     rep.rule = format!(
-        "every generalized dataset of <= {} quads over a {}-quad universe (subjects _:a _:b ex:x <<_:a ex:p _:b>> <<ex:x ex:p <<_:a ex:p \"l\">>>>, predicates ex:p _:b ?v, objects incl. _:c, a literal, both quoted triples and a variable, graph names default / _:a / ex:x) and of <= {} quads over a {}-quad sub-universe; for each: all bijections of its blank node labels onto fresh labels and onto its own labels (swaps), reversed statement order, 4 ordered container pairs (Vec, HashSet, BTreeSet, FastDataset) in both argument orders, and isomorphic_graphs for default-graph datasets: must answer true; every single-edit neighbour (one ground atom replaced, one statement added/removed, two labels merged, one label split) that differs in size, blank node count or bnode-blanked statements must answer false in both argument orders; non-trivial = datasets with blank nodes",
+        "every generalized dataset of <= {} quads over a {}-quad universe (subjects _:a _:b ex:x <<_:a ex:p _:b>> <<ex:x ex:p <<_:a ex:p \"l\">>>>, predicates ex:p _:b ?v, objects incl. _:c, a literal, both quoted triples and a variable, graph names default / _:a / ex:x) and of <= {} quads over a {}-quad sub-universe; for each: all bijections of its blank node labels onto fresh labels and onto its own labels (swaps), reversed statement order, 4 ordered container pairs (Vec, HashSet, BTreeSet, FastDataset) in both argument orders, and isomorphic_graphs for default-graph datasets: must answer true; every single-edit neighbour (one ground atom replaced, one statement moved between the default graph and a named graph, one statement added/removed, two labels merged, one label split) that differs in size, blank node count or bnode-blanked statements must answer false in both argument orders; non-trivial = datasets with blank nodes",
         tier.pick(1, 2),
         full.len(),
         tier.pick(2, 3),
